@@ -6,6 +6,13 @@ mode `hist`   : stdin JSON lines, each a history {"id", "ops":[...]} run against
                 behind qs.qserve.QPlugin (in-process proxy instead of the TCP RPC client; time.time of
                 qs.jobs patched to a counter).  After every op: the snapshots of all tracked job ids, the
                 status response for every (collection, writer), and the live job attributes.
+                The op ["istatus", c, w, {"k": op, ...}] is ONE do_render_status(c, w) request during which other
+                clients of the queue act: before the k-th qinfo RPC of that request (k = 1, 2, ..; every RPC is a
+                scheduling point of the real gevent server) the given queue op is applied.  The step then carries
+                "inter": the response, the (jobid, snapshot) pairs the request actually read, and the live
+                (render job, makezip job) attributes at the start of the request and after every injected op.
+                Ops whose k exceeds the number of qinfo calls the request made are applied right after the request
+                (so an interleaved history has the same effect on the queue as the plain one).
 mode `writers`: the writer table the running code has.
 mode `unicode`: exhaustive pass over all 0x110000 code points: str.isspace table, the NFKD hypothesis of
                 the Coq theorem, and (argv[2] = step) get_content_disposition on every step-th code point.
@@ -91,6 +98,22 @@ class WorkqProxy:
 
     def qadd(self, **kw):
         return self.plugin.rpc_qadd(**json.loads(json.dumps(kw)))
+
+
+class InterleavingProxy:
+    """The proxy of ONE status request: before its k-th qinfo call, `before(k)` lets another client of the queue
+    act (the RPC is a scheduling point).  Records what the request read."""
+
+    def __init__(self, proxy, before):
+        self.proxy = proxy
+        self.before = before
+        self.reads = []
+
+    def qinfo(self, jobid):
+        self.before(len(self.reads) + 1)
+        res = self.proxy.qinfo(jobid)
+        self.reads.append([jobid, res])
+        return res
 
 
 def run_hist():
